@@ -612,6 +612,16 @@ func init() {
 		snap := ex.load(a[1].(PtrV)).(*SnapObj)
 		return ex.sameState(ex.ctxArg(a[0]).ms, snap.ms)
 	})
+	reg(rtPkg+"ForkContext", func(ex *Exec, a []Val) Val {
+		c := ex.ctxArg(a[0])
+		return c.with(func(n *CtxV) { n.ms = c.ms.snapshot(ex); n.events = &EventMgrObj{} })
+	})
+	// x/params subspace and legacy amino are never used by the code under test
+	reg("github.com/cosmos/cosmos-sdk/x/params/types.NewSubspace", func(ex *Exec, a []Val) Val {
+		return ex.zeroOfResult("github.com/cosmos/cosmos-sdk/x/params/types.NewSubspace")
+	})
+	reg("(github.com/cosmos/cosmos-sdk/x/params/types.Subspace).HasKeyTable", func(ex *Exec, a []Val) Val { return ex.tf.T })
+	reg("github.com/cosmos/cosmos-sdk/codec.NewLegacyAmino", func(ex *Exec, a []Val) Val { return PtrV{C: ex.newCell(&OpaqueObj{"LegacyAmino"})} })
 	reg(rtPkg+"RemountContext", func(ex *Exec, a []Val) Val { return a[0] })
 	reg("github.com/cometbft/cometbft/libs/log.NewNopLogger", func(ex *Exec, a []Val) Val { return nativeIface(&LoggerObj{}) })
 	reg(rtPkg+"NewContextAt", func(ex *Exec, a []Val) Val {
@@ -713,6 +723,14 @@ func init() {
 			}
 		})
 	})
+	for _, pk := range []string{"github.com/cosmos/cosmos-sdk/store/types.", "github.com/cosmos/cosmos-sdk/types."} {
+		reg(pk+"NewInfiniteGasMeter", func(ex *Exec, a []Val) Val {
+			return nativeIface(&GasMeterObj{infinite: true, limit: ex.tf.BVu(0, 64), consumed: ex.tf.BVu(0, 64)})
+		})
+		reg(pk+"NewGasMeter", func(ex *Exec, a []Val) Val {
+			return nativeIface(&GasMeterObj{limit: a[0].(*Term), consumed: ex.tf.BVu(0, 64)})
+		})
+	}
 	reg(C+"WithGasMeter", func(ex *Exec, a []Val) Val {
 		iv := a[1].(IfaceV)
 		g, _ := iv.V.(*GasMeterObj)
